@@ -50,7 +50,9 @@ class GroupSX:
         promoted names of inputs fed by the automatic IndepVarComp"""
         out = {}
         for comp in self.comps:
-            if isinstance(comp, om.IndepVarComp) and not comp.pathname.startswith("_auto_ivc"):
+            if isinstance(comp, om.IndepVarComp) and not comp.pathname.startswith("_auto_ivc") and "." not in comp.pathname:
+                # only IndepVarComps at the top level of the model are the user's inputs; IndepVarComps inside the
+                # repository's groups (e.g. the fixed alpha_pg = beta_pg = 0 of the compressible solver) are constants
                 for n in comp._var_rel_names["output"]:
                     a = comp.pathname + "." + n
                     out.setdefault(self.abs2prom_out[a], []).append(a)
@@ -105,7 +107,10 @@ class GroupSX:
                 for n in comp._var_rel_names["output"]:
                     a = path + "." + n
                     prom = self.abs2prom_out[a]
-                    vals[a] = self._given(given, prom, a, tag, free, self.meta_out[a])
+                    if "." in path and prom not in given:
+                        vals[a] = S.lift(np.array(self.prob.get_val(a)))          # internal constant of the group
+                    else:
+                        vals[a] = self._given(given, prom, a, tag, free, self.meta_out[a])
                 continue
             h = self._handle(comp)
             ins = {}
